@@ -566,6 +566,18 @@ var c08Bodies = []c08Body{
 	{"utf8", "привет ✓\r\n"},
 	{"wsp-then-empty-end", "x\r\n  \r\n\r\n"},
 	{"from-line", "From here\r\n>From there\r\n"},
+	// bodies larger than the 32 KiB copy buffer between the spool file and the SMTP
+	// connection, with a line terminator / a leading dot exactly on a buffer boundary
+	{"big:crlf-straddles-32768", c08Lines(409) + strings.Repeat("b", 47) + "\r\n" + c08Lines(30)},
+	{"big:crlf-straddles-65536", c08Lines(819) + strings.Repeat("b", 15) + "\r\n" + c08Lines(10)},
+	{"big:line-ends-at-32768", c08Lines(409) + strings.Repeat("b", 46) + "\r\n" + c08Lines(30)},
+	{"big:dot-starts-at-32768", c08Lines(409) + strings.Repeat("b", 46) + "\r\n" + ".dot first\r\n.\r\n" + c08Lines(30)},
+	{"big:cr-lf-dot-around-65536", c08Lines(819) + strings.Repeat("b", 14) + "\r\n" + ".x\r\n" + c08Lines(10)},
+}
+
+// c08Lines: n lines of 78 letters + CRLF (80 octets each)
+func c08Lines(n int) string {
+	return strings.Repeat(strings.Repeat("a", 78)+"\r\n", n)
 }
 
 func c08Enumerate(thorough bool, emit func(c08Case)) {
@@ -604,8 +616,12 @@ func c08Enumerate(thorough bool, emit func(c08Case)) {
 											}
 										}
 										for bi, b := range c08Bodies {
+											if strings.HasPrefix(b.tag, "big:") && !(fi == 0 && ti == 0 && ei == 0 && (si == 0 || thorough && si < 3)) {
+												// the large bodies go with the plainest header shapes only
+												continue
+											}
 											for _, reload := range []bool{false, true} {
-												if !thorough && (bi+si+fi+ti+ei)%2 != 0 && len(b.body) > 0 {
+												if !thorough && (bi+si+fi+ti+ei)%2 != 0 && len(b.body) > 0 && !strings.HasPrefix(b.tag, "big:") {
 													continue
 												}
 												emit(c08Case{Key: key, HC: hc, BC: bc, EAI: eai, IDN: idn, Reload: reload, Fields: fields, Body: c08Str(b.body), BodyTag: b.tag})
@@ -626,7 +642,7 @@ func TestVerifC08(t *testing.T) {
 	log.DefaultLogger.Out = log.NopOutput{}
 	r := vx.Start("C08", "spool+smtp")
 	defer r.Finish()
-	r.Rule("messages from a grammar of header-field shapes (5 From x 15 Subject x 3 To x 5 groups of further fields: folding with SP/TAB, fold right after the colon, whitespace-only continuation, empty values, 980-octet values, repeated fields, lower/upper-case names, 8-bit and UTF-8 values, a foreign DKIM-Signature) x 16 bodies (empty, CRLF only, leading/trailing empty lines, dot lines, trailing and inner whitespace, 998-octet line, 8-bit, UTF-8) x key {rsa2048, ed25519} x header canon x body canon x {ASCII, IDN signing domain} x {SMTPUTF8 on, off} x {first attempt, retry from the spool}; signed by modify.dkim, queued, sent by target.smtp to a scripted server; oracle: payload verifies with go-msgauth and with the independent vdkim verifier against the .dns record maddy wrote, and every tampered copy (signed field removed / altered, over-signed field added at top / bottom, body extended) is rejected by both. Quick tier: a covering subset of field-shape combinations; thorough: the full product")
+	r.Rule("messages from a grammar of header-field shapes (5 From x 15 Subject x 3 To x 5 groups of further fields: folding with SP/TAB, fold right after the colon, whitespace-only continuation, empty values, 980-octet values, repeated fields, lower/upper-case names, 8-bit and UTF-8 values, a foreign DKIM-Signature) x 21 bodies (5 of them larger than the 32 KiB copy buffer with a line terminator or a leading dot on a buffer boundary; empty, CRLF only, leading/trailing empty lines, dot lines, trailing and inner whitespace, 998-octet line, 8-bit, UTF-8) x key {rsa2048, ed25519} x header canon x body canon x {ASCII, IDN signing domain} x {SMTPUTF8 on, off} x {first attempt, retry from the spool}; signed by modify.dkim, queued, sent by target.smtp to a scripted server; oracle: payload verifies with go-msgauth and with the independent vdkim verifier against the .dns record maddy wrote, and every tampered copy (signed field removed / altered, over-signed field added at top / bottom, body extended) is rejected by both. Quick tier: a covering subset of field-shape combinations; thorough: the full product")
 	if rp := r.Replay(); rp != nil {
 		var c c08Case
 		if json.Unmarshal(rp, &c) != nil {
